@@ -7,11 +7,7 @@ import (
 	"flag"
 	"fmt"
 	"math/big"
-	"os"
-	"regexp"
 	"runtime"
-	"sort"
-	"strings"
 	"sync"
 	"time"
 
@@ -42,100 +38,6 @@ func (e *env) expected(idx []int, sc []*big.Int) ocurve.Pt {
 	}
 	acc.Mod(acc, e.g.R)
 	return e.g.C.Mul(e.g.G, acc)
-}
-
-var blockedRe = regexp.MustCompile(`(?m)^goroutine \d+ \[(chan send|chan receive|select|semacquire|sync\.WaitGroup\.Wait|sync\.Mutex\.Lock)`)
-
-// withWatchdog runs fn; if it does not return, a no-progress detector decides: two goroutine dumps
-// 3 s apart in which every library goroutine is parked at the same place => deadlock (violation);
-// anything else => inconclusive. Returns false when fn did not return.
-func withWatchdog(c *mon.Ctx, key string, desc func() string, limit time.Duration, fn func(), size ...int) bool {
-	done := make(chan struct{})
-	var panicked any
-	go func() {
-		defer func() {
-			panicked = recover()
-			close(done)
-		}()
-		fn()
-	}()
-	select {
-	case <-done:
-		if panicked != nil {
-			c.Fail(key+"/panic", "PANIC %v on %s", panicked, desc())
-		}
-		return true
-	case <-time.After(limit):
-	}
-	dump := func() string {
-		buf := make([]byte, 1<<22)
-		n := runtime.Stack(buf, true)
-		var keep []string
-		for _, g := range strings.Split(string(buf[:n]), "\n\n") {
-			if strings.Contains(g, "gnark-crypto/ecc") || strings.Contains(g, "gnark-crypto/internal/parallel") {
-				// normalise: drop goroutine ids, argument values, +0x offsets and wait durations
-				var ls []string
-				for _, l := range strings.Split(g, "\n") {
-					l = regexp.MustCompile(`^goroutine \d+ \[([a-zA-Z .]+)[^\]]*\]:`).ReplaceAllString(l, "[$1]:")
-					if !strings.HasPrefix(l, "\t") && !strings.HasPrefix(l, "[") {
-						if i := strings.LastIndex(l, "("); i > 0 {
-							l = l[:i]
-						}
-						l = regexp.MustCompile(` in goroutine \d+$`).ReplaceAllString(l, "")
-					}
-					l = regexp.MustCompile(` \+0x[0-9a-f]+$`).ReplaceAllString(l, "")
-					ls = append(ls, l)
-				}
-				keep = append(keep, strings.Join(ls, "\n"))
-			}
-		}
-		sort.Strings(keep)
-		return strings.Join(keep, "\n--\n")
-	}
-	d1 := dump()
-	time.Sleep(3 * time.Second)
-	select {
-	case <-done:
-		c.Note("slow call (returned during the no-progress check): %s", desc())
-		return true
-	default:
-	}
-	d2 := dump()
-	allBlocked := d1 != "" && !strings.Contains(d1, "[running]") && !strings.Contains(d1, "[runnable]")
-	if d1 == d2 && allBlocked {
-		if len(d1) > 3000 {
-			d1 = d1[:3000]
-		}
-		c.Fail(key+"/no-termination", "%s did not return within %v; all library goroutines are parked at the same place in two dumps 3 s apart (deadlock):\n%s", desc(), limit, d1)
-	} else if len(size) > 0 && size[0] <= 64 && d1 != "" && topFrames(d1) == topFrames(d2) {
-		// a call on at most 64 terms (milliseconds of work) that is still executing the same library functions
-		// after the limit, 10^4..10^5 times its normal duration, and again 3 s later: a loop that does not end
-		if len(d1) > 3000 {
-			d1 = d1[:3000]
-		}
-		c.Fail(key+"/no-termination", "%s (a workload of %d terms) did not return within %v and is still running in the same library functions in two dumps 3 s apart (non-terminating loop):\n%s", desc(), size[0], limit, d1)
-	} else {
-		c.Inconclusive("%s did not return within %v but goroutines were still making progress (blocked=%v same=%v)", desc(), limit, allBlocked, d1 == d2)
-		if os.Getenv("VERIF_DEBUG") != "" {
-			fmt.Println("DUMP1\n" + d1 + "\nDUMP2\n" + d2)
-		}
-	}
-	return false
-}
-
-// topFrames reduces a normalised dump to the sorted set of innermost library functions of its goroutines.
-func topFrames(d string) string {
-	var tops []string
-	for _, g := range strings.Split(d, "\n--\n") {
-		for _, l := range strings.Split(g, "\n") {
-			if strings.Contains(l, "gnark-crypto/") && !strings.HasPrefix(l, "\t") && !strings.HasPrefix(l, "[") {
-				tops = append(tops, l)
-				break
-			}
-		}
-	}
-	sort.Strings(tops)
-	return strings.Join(tops, "|")
 }
 
 func shapeScalars(e *env, shape string, n int, c uint64) []*big.Int {
@@ -310,7 +212,7 @@ func runGroup(c *mon.Ctx, g *groups.Group) {
 					for rep := 0; rep < 2; rep++ {
 						var out groups.Rep
 						var err error
-						if !withWatchdog(c, key, desc, limit, func() { out, err = g.MultiExp(idx, sc, nb, variant) }, n) {
+						if !mon.Watch(c, key, desc, limit, func() { out, err = g.MultiExp(idx, sc, nb, variant) }, n) {
 							runtime.GOMAXPROCS(prev)
 							return
 						}
@@ -367,7 +269,7 @@ func runGroup(c *mon.Ctx, g *groups.Group) {
 					}
 					var out groups.Rep
 					var err error
-					if !withWatchdog(c, N+"/Fold", desc, limit, func() { out, err = g.Fold(idx, coeff, nb, variant) }, n) {
+					if !mon.Watch(c, N+"/Fold", desc, limit, func() { out, err = g.Fold(idx, coeff, nb, variant) }, n) {
 						return
 					}
 					check("Fold", N+"/Fold", fmt.Sprintf("n%d/c%d/%s", n, ci, ps), out, err, want, desc)
@@ -402,7 +304,7 @@ func runGroup(c *mon.Ctx, g *groups.Group) {
 					}
 					c.Current(desc())
 					var out groups.Rep
-					if !withWatchdog(c, N+"/innerMsm", desc, limit, func() { out = g.InnerMsm(cw, idx, sc, nb) }, nInner) {
+					if !mon.Watch(c, N+"/innerMsm", desc, limit, func() { out = g.InnerMsm(cw, idx, sc, nb) }, nInner) {
 						return
 					}
 					check("innerMsm", N+"/innerMsm", fmt.Sprintf("c%d/%s/%s", cw, ss, ps), out, nil, want, desc)
